@@ -22,6 +22,7 @@ class DefinednessError(Exception):
 
 
 _counter = itertools.count()
+MODE = {"log": False}     # log-monomial mode: numpy.pi and irrational constant powers are carried as LogVal
 
 
 def fresh_name(prefix):
@@ -293,6 +294,12 @@ def r_pow(a, b, ctx=None):
                     base = Fraction(num, den)
                     p = bn.numerator
                     return base ** p if p >= 0 else Fraction(1) / (base ** (-p))
+    if MODE["log"] and is_conc(a) and is_conc(b) and Fraction(_num(a)) > 0:
+        from .logmono import LogVal, log_of_rational
+        return LogVal(z3.simplify(log_of_rational(Fraction(_num(a))) * zr(Fraction(_num(b)))))
+    if is_conc(a) and _num(a) == 10 and is_z3(b):
+        from .logmono import pow10
+        return pow10(b)
     f = UF("pow", 2)
     t = f(zr(a), zr(b))
     if ctx is not None:
@@ -464,10 +471,22 @@ def to_polar(a):
 
 
 def is_scalar(x):
-    return is_conc(x) or is_z3(x) or isinstance(x, (Cx, Polar))
+    return is_conc(x) or is_z3(x) or isinstance(x, (Cx, Polar)) or hasattr(x, "__aovc_sop__")
+
+
+def _plug(op, a, b, ctx=None):
+    """plug-in scalar domains (log-monomials ...) implement __aovc_sop__(op, a, b, ctx)"""
+    if hasattr(a, "__aovc_sop__"):
+        return a.__aovc_sop__(op, a, b, ctx)
+    if b is not None and hasattr(b, "__aovc_sop__"):
+        return b.__aovc_sop__(op, a, b, ctx)
+    return NotImplemented
 
 
 def s_add(a, b, ctx=None):
+    r = _plug("add", a, b, ctx)
+    if r is not NotImplemented:
+        return r
     if isinstance(a, Polar) or isinstance(b, Polar):
         raise Unsupported("sum involving exp(i*phi) values")
     if isinstance(a, Cx) or isinstance(b, Cx):
@@ -477,6 +496,9 @@ def s_add(a, b, ctx=None):
 
 
 def s_sub(a, b, ctx=None):
+    r = _plug("sub", a, b, ctx)
+    if r is not NotImplemented:
+        return r
     if isinstance(a, Polar) or isinstance(b, Polar):
         raise Unsupported("difference involving exp(i*phi) values")
     if isinstance(a, Cx) or isinstance(b, Cx):
@@ -486,6 +508,9 @@ def s_sub(a, b, ctx=None):
 
 
 def s_mul(a, b, ctx=None):
+    r = _plug("mul", a, b, ctx)
+    if r is not NotImplemented:
+        return r
     if isinstance(a, Polar) or isinstance(b, Polar):
         a, b = to_polar(a), to_polar(b)
         return Polar(r_mul(a.r, b.r), r_add(a.phi, b.phi))
@@ -496,6 +521,9 @@ def s_mul(a, b, ctx=None):
 
 
 def s_neg(a):
+    r = _plug("neg", a, None)
+    if r is not NotImplemented:
+        return r
     if isinstance(a, Polar):
         return Polar(r_neg(a.r), a.phi)
     if isinstance(a, Cx):
@@ -504,6 +532,9 @@ def s_neg(a):
 
 
 def s_div(a, b, ctx=None):
+    r = _plug("div", a, b, ctx)
+    if r is not NotImplemented:
+        return r
     if isinstance(a, Polar) or isinstance(b, Polar):
         a, b = to_polar(a), to_polar(b)
         return Polar(r_div(a.r, b.r, ctx), r_sub(a.phi, b.phi))
@@ -519,6 +550,9 @@ def s_div(a, b, ctx=None):
 
 
 def s_pow(a, b, ctx=None):
+    r = _plug("pow", a, b, ctx)
+    if r is not NotImplemented:
+        return r
     if isinstance(a, (Cx, Polar)) or isinstance(b, (Cx, Polar)):
         if isinstance(a, Polar) and is_conc(b):
             return Polar(r_pow(a.r, b, ctx), r_mul(a.phi, b))
@@ -589,6 +623,9 @@ def s_exp(a, ctx=None):
 
 def s_eq(a, b):
     """equality of two scalars as a formula"""
+    r = _plug("eq", a, b)
+    if r is not NotImplemented:
+        return r
     if isinstance(a, Polar) or isinstance(b, Polar):
         a, b = to_polar(a), to_polar(b)
         return b_and(cmp("==", a.r, b.r), cmp("==", a.phi, b.phi))
